@@ -26,6 +26,7 @@ if [ "$VERIF_REPO" != "/repo" ]; then
   MODFLAG="-modfile=$OUT/alt.mod"
 fi
 
+GO=go
 build() {
   # $1 = output, rest = extra flags; build to a private name, then rename atomically.
   # Normal build: hooks on (-tags verif). If /repo was edited so that the hook file no
@@ -34,12 +35,12 @@ build() {
   local out=$1; shift
   local tmp="$OUT/bin/.$(basename "$out").$$"
   local log="$OUT/bin/build.$$.log"
-  if go build $MODFLAG -tags verif "$@" -o "$tmp" ./cmd/vcheck 2>"$log"; then
+  if $GO build $MODFLAG -tags verif "$@" -o "$tmp" ./cmd/vcheck 2>"$log"; then
     rm -f "$log"; mv -f "$tmp" "$out"; return 0
   fi
   echo "note: build with -tags verif failed, retrying without hooks:" >&2
   head -20 "$log" >&2
-  if go build $MODFLAG "$@" -o "$tmp" ./cmd/vcheck 2>"$log"; then
+  if $GO build $MODFLAG "$@" -o "$tmp" ./cmd/vcheck 2>"$log"; then
     rm -f "$log"; mv -f "$tmp" "$out"; return 0
   fi
   echo "BUILD FAILED (the framework or the repository does not compile):" >&2
@@ -72,5 +73,12 @@ tier=${2:-${VERIF_TIER:-quick}}
 build "$OUT/bin/vcheck" || exit 2
 if needs_race "$id"; then
   build "$OUT/bin/vcheck.race" -race || exit 2
+fi
+rm -f "$OUT/bin/vcheck.alt"
+if [ "$id" = C07 ] && [ "$tier" = thorough ] && command -v go1.26 >/dev/null 2>&1; then
+  # second configuration for the order property: a toolchain with a different map implementation
+  # (Swiss tables, different iteration order); optional - skipped with a note if it does not build
+  GO=go1.26 build "$OUT/bin/vcheck.alt" || echo "note: go1.26 build failed, C07 runs with the default toolchain only" >&2
+  GO=go
 fi
 exec "$OUT/bin/vcheck" run "$id" "$tier"
